@@ -19,7 +19,7 @@ for d in seeded/*/; do
   done
   if [ -z "$base" ]; then echo "$name PATCH-DOES-NOT-APPLY"; continue; fi
   # the harness needs the verif hooks (build tag verif, add-only): bring a base that predates one up to date
-  for hc in a1f4396 092d3b7; do
+  for hc in a1f4396 092d3b7 bc8bd8d; do
     if ! git -C /repo merge-base --is-ancestor $hc $base 2>/dev/null; then
       git -C /repo show $hc | ( cd $scr && git apply 2>/dev/null ) || true
     fi
